@@ -83,4 +83,20 @@ theorem source_iter_dump_is_model {E Es X : Type} (env : Env E Es Pend) (ops : S
       ∃ new, cl'.acts = acts0 ++ new ∧ new.filterMap (outOfDumpAct ops s) = (dumpPump ops pfx s cd rem k big).2.1 :=
   iter_dump_tie env ops s pfx rt cd k rem big acts0 log ext hok
 
+open MiniconfVerif.Gen MiniconfVerif.Gen.Core MiniconfVerif.Gen.Mqtt MiniconfVerif.GenTie in
+/-- **`MqttClient::dump(path)` as translated from miniconf_mqtt/src/lib.rs is the model's `apiDump`** (about which
+`api_dump_busy` and `dump_entry_points` speak), for every protocol state, pending request and path: an invalid path is
+refused (`root()` fails) before the state machine is asked; while a multipart answer is pending, or before the start-up
+has finished, the `Multipart` event is refused and the pending request stays as it is; otherwise the pending request
+becomes the walk below `path` with no response topic and no correlation data. Nothing is sent; no panic. The same
+translation run also checks that `alive()` and `subscribe()` still hand minimq the retained `<prefix>/alive` publication
+(QoS 1) and the no-local `<prefix>/settings/#` subscription, as skeletons. -/
+theorem source_dump_api_is_model {E Es X : Type} (ops : SettingsOps σ) (env : Env E Es Pending) (c : Client)
+    (path : Option Str) (acts : List (Act E Es)) (log : List String) (ext : X) (hroot : (ops.leavesBelow []).isSome) :
+    ∃ cl r, Gen.Mqtt.dump env (denvOf ops) { st := stToGen c.st, pending := c.pending, acts := acts, log := log, ext := ext } path
+        = .val (cl, r) ∧
+      (apiDump ops c path).1.st = stOfGen cl.st ∧ (apiDump ops c path).1.pending = cl.pending ∧
+      (apiDump ops c path).2 = r.isOk ∧ cl.acts = acts ∧ cl.log = log ∧ cl.ext = ext :=
+  dump_tie ops env c path acts log ext hroot
+
 end MiniconfVerif.C10
